@@ -1114,9 +1114,10 @@ def reshape_from_space(tensor: TorchObsType, space: spaces.Space) -> TorchObsTyp
     else:
         #
         reshaped: torch.Tensor = tensor.reshape(-1, *space.shape)
-        for squeeze_dim in [0, -1]:
-            if reshaped.dim() > 0 and reshaped.size(squeeze_dim) == 1:
-                reshaped = reshaped.squeeze(squeeze_dim)
+        # NOTE: Only a trailing singleton dimension is dropped, the batch dimension
+        # must survive also for a batch of one row
+        if reshaped.dim() > 1 and reshaped.size(-1) == 1:
+            reshaped = reshaped.squeeze(-1)
         return reshaped
 
 
